@@ -69,8 +69,8 @@ pub fn plan(id: &str) -> Option<Plan> {
         "C02" => Plan {
             id: "C02",
             level: "exploration",
-            profiles: vec![MKT, MKT_F, ADM],
-            quick_runs: 1500,
+            profiles: vec![MKT, MKT_F, ADM, TX],
+            quick_runs: 1800,
             thorough_runs: 30_000,
             rule: "seeded runs of the market profile (fault-free and fault-injecting halves); one evaluation = one (instruction, bank) pair whose totals or positions changed, judged bit-exactly; distinct = instruction kind x which totals changed x number of closed slots",
         },
@@ -93,8 +93,8 @@ pub fn plan(id: &str) -> Option<Plan> {
         "C01" => Plan {
             id: "C01",
             level: "exploration",
-            profiles: vec![MKT, MKT_F, ADM],
-            quick_runs: 1500,
+            profiles: vec![MKT, MKT_F, ADM, TX],
+            quick_runs: 1800,
             thorough_runs: 30_000,
             rule: "seeded runs of the market profile (fault-free and fault-injecting halves); one evaluation = one (successful instruction, custodied bank) pair whose books or vault changed: dS >= -derived allowance; distinct = ix kind x utilisation decile x share-value class x magnitude decade",
         },
